@@ -4,6 +4,7 @@ import (
 	"bytes"
 	"errors"
 	"fmt"
+	"strings"
 	"testing"
 	"time"
 
@@ -14,7 +15,7 @@ import (
 	"verif/harness/stats"
 )
 
-const ruleC15 = "rapid-generated messages built through the public API (hostile strings incl. long runs, NUL-free IDs, all Retry classes, optional clone in the middle); (i) WriteTo/MarshalText/String give identical bytes equal to the reference encoding with n == len; (ii) UnmarshalText of those bytes succeeds, re-encodes identically and reproduces ID, type, retry (ms) and the ordered data/comment lines; (iii) for EVERY Write call index k of the clean encoding and two failure modes (error with 0 bytes accepted; short write of a drawn proper prefix with an error), WriteTo must return exactly the injected error, n == bytes accepted, the accepted bytes must be the length-n prefix of the full encoding and no Write may follow the failing one; (iii-b) the same for a writer that accepts exactly B bytes in total and then fails, for every B below the encoding length (strided beyond 300 bytes), which does not depend on how the encoder groups its writes. Non-trivial: the message has an ID or type, at least one data and one comment line (every writer path runs) and at least 6 fault points were executed. Distinct: FNV-64 of the JSON of the case."
+const ruleC15 = "rapid-generated messages built through the public API (hostile strings incl. long runs, NUL-free IDs, all Retry classes, optional clone in the middle); (i) WriteTo/MarshalText/String give identical bytes equal to the reference encoding with n == len, and a MarshalText result stays that while another message and the same one are marshalled again and is not shared with the message; (ii) UnmarshalText of those bytes succeeds, re-encodes identically and reproduces ID, type, retry (ms) and the ordered data/comment lines; (iii) for EVERY Write call index k of the clean encoding and two failure modes (error with 0 bytes accepted; short write of a drawn proper prefix with an error), WriteTo must return exactly the injected error, n == bytes accepted, the accepted bytes must be the length-n prefix of the full encoding and no Write may follow the failing one; (iii-b) the same for a writer that accepts exactly B bytes in total and then fails, for every B below the encoding length (strided beyond 300 bytes), which does not depend on how the encoder groups its writes. Non-trivial: the message has an ID or type, at least one data and one comment line (every writer path runs) and at least 6 fault points were executed. Distinct: FNV-64 of the JSON of the case."
 
 type C15Case struct {
 	Msg      MsgCase `json:"msg"`
@@ -109,6 +110,25 @@ func checkC15(t *testing.T, c C15Case) *stats.Verdict {
 	}
 	if s := m.String(); s != want {
 		return v.Failf("", "String = %q, want %q", s, want)
+	}
+	// the returned bytes are the caller's: they stay the encoding of m while other messages
+	// (and m again) are marshalled, and scribbling over them does not reach m
+	other := &sse.Message{}
+	other.AppendData(strings.Repeat("Z", len(want)+8))
+	omt, _ := other.MarshalText()
+	ostr := other.String()
+	if string(mt) != want {
+		return v.Failf("", "the bytes MarshalText returned changed to %q after another message was marshalled, want %q", mt, want)
+	}
+	mt2, _ := m.MarshalText()
+	if string(omt) != ostr || string(mt2) != want {
+		return v.Failf("", "two MarshalText results held at once: other = %q (want %q), m = %q (want %q)", omt, ostr, mt2, want)
+	}
+	for i := range mt {
+		mt[i] = 'X'
+	}
+	if s := m.String(); s != want || string(mt2) != want {
+		return v.Failf("", "after overwriting the bytes MarshalText returned: String = %q, second result %q, want %q", s, mt2, want)
 	}
 	if want == "" {
 		v.Class("nothing-to-write")
